@@ -29,8 +29,11 @@
  *         return DBUS_DISPATCH_COMPLETE;
  *
  * check_read_watch runs (a) directly after a message is charged (dbus-transport.c:1194-1195, live_messages_changed called
- * by _dbus_transport_queue_messages) and (b) when the counter calls the notify function (live_messages_notify,
- * dbus-transport.c:61-86).  DELAYED: free_counter (dbus-message.c:619-632) adjusts the counter and then calls
+ * by _dbus_transport_queue_messages), (b) when the counter calls the notify function (live_messages_notify,
+ * dbus-transport.c:61-86) and (c) in the limit setters, right after _dbus_counter_set_notify (dbus-transport.c:1279-1282,
+ * 1302-1305: `if (transport->vtable->live_messages_changed) (* transport->vtable->live_messages_changed) (transport);`):
+ * L<ms>,<mf> in flow mode does exactly that on the counter (set_notify, then the quoted need_read_watch expression);
+ * in tflow mode it calls the real dbus_connection_set_max_received_size / _unix_fds.  DELAYED: free_counter (dbus-message.c:619-632) adjusts the counter and then calls
  * _dbus_counter_notify; without the connection lock, so other threads can run in between (and live_messages_notify itself
  * starts by taking the connection lock, dbus-transport.c:66).  dbus_message_unref cannot be stopped half-way, so R<k> calls
  * it with the harness' notify function switched to "suppressed" and, if the function was called, sets notify_pending again
@@ -237,6 +240,7 @@ static void do_flow (void)
         {
           max_size = a; max_fds = b;
           _dbus_counter_set_notify (counter, max_size, max_fds, on_notify, NULL);
+          watch = need_read_watch ();          /* dbus-transport.c:1281-1282, 1304-1305 */
         }
       else { printf ("%s?bad-event", first ? "" : " "); break; }
       print_flow_state (first);
